@@ -78,6 +78,9 @@ Definition en_dkeys (n : enode) := let 'ENode _ _ _ _ k _ _ := n in k.
 Definition en_children (n : enode) := let 'ENode _ _ _ _ _ c _ := n in c.
 Definition en_signers (n : enode) := let 'ENode _ _ _ _ _ _ s := n in s.
 
+Fixpoint nodup_bytes (l : list bytes) : bool :=
+  match l with [] => true | x :: r => negb (mem_bytes x r) && nodup_bytes r end.
+
 (* the signatures on a delegated role's document *)
 Definition en_sigs (n : enode) : list sig := sign_with (dh_keyids (en_hdr n)) (en_signers n).
 
@@ -179,11 +182,15 @@ Section EdTree.
 
   (* RepositoryEditor::sign followed by SignedRepository::write. The targets document returned is the
      in-memory one (tree attached); the snapshot describes the files. *)
-  Definition ed_sign_tree (r : root) (e : edit) (dkeys : list N) (ch : list enode) (keys : list N)
-    : option (targets * snapshot * timestamp * server) :=
+  (* [names_checked]: after the repair of F19 the editor refuses to sign when two delegated roles bear the
+     same name (two different roles; the same role loaded twice from a repository in which it is delegated
+     to along two paths is outside this model) *)
+  Definition ed_sign_tree_gen (names_checked : bool) (r : root) (e : edit) (dkeys : list N) (ch : list enode)
+             (keys : list N) : option (targets * snapshot * timestamp * server) :=
     match signed_role r 2 keys, signed_role r 1 keys, signed_role r 3 keys with
     | Some st, Some ss, Some sts =>
-        if forallb (role_checked (top_node e dkeys ch)) (all_roles ch) then
+        if (negb names_checked || nodup_bytes (map en_name (all_roles ch)))
+           && forallb (role_checked (top_node e dkeys ch)) (all_roles ch) then
           let doc := top_file_doc e dkeys ch st in
           let tg := top_loaded e dkeys ch st in
           let sn := tree_snapshot e doc ch ss in
@@ -192,6 +199,7 @@ Section EdTree.
         else None
     | _, _, _ => None
     end.
+  Definition ed_sign_tree := ed_sign_tree_gen true.
 End EdTree.
 
 (* RepositoryEditor::update_delegated_targets: incoming metadata for an existing delegated role is
